@@ -91,5 +91,12 @@ def install():
 
     core.consider_shortcircuit = consider_shortcircuit
 
+    # fork_parallel() marks heuristic alternatives that are semantically equivalent
+    # (short-circuit vs call-into, "premature realisation" of an argument vs keeping it
+    # symbolic).  Always take the exact/symbolic alternative: no extra tree nodes, and the
+    # number of paths equals the number of distinct symbolic behaviours.
+    import crosshair.statespace as ss
+    ss.StateSpace.fork_parallel = lambda self, false_probability, desc="": False
+
 
 install()
